@@ -347,6 +347,62 @@ fn core_specs() -> Vec<SetSpec> {
     ]
 }
 
+/// small pool of expressions for evaluation histories (so that repeats, and failures followed by repeats, are frequent)
+fn hist_pool() -> Vec<Expr> {
+    let s = |x: &str| Expr::Value(Value::String(x.to_string()));
+    let mut v = vec![];
+    for text in ["2015-07-30T03:26:13Z", "2021-10-15T10:00:00Z", "not a date", "2015-07-30", "", "12", "1e3", "abc", "1.50"] {
+        v.push(Expr::datetime(s(text)));
+        v.push(Expr::int(s(text)));
+        v.push(Expr::float(s(text)));
+        v.push(Expr::dec(s(text)));
+        v.push(Expr::uppercase(s(text)));
+    }
+    for n in [0i128, 1, 86400, i64::MAX as i128, -1] {
+        v.push(Expr::datetime(Expr::value(n)));
+        v.push(Expr::duration(Expr::value(n)));
+        v.push(Expr::week(Expr::value(n)));
+    }
+    v.push(Expr::reff("id"));
+    v.push(Expr::iif(Expr::value(true), Expr::reff("id"), Expr::value(0)));
+    v.push(Expr::contains(Expr::Vec(vec![Expr::value(1001), Expr::value(1002)]), Expr::reff("id")));
+    v
+}
+
+fn decode_history(bytes: &[u8]) -> (Vec<usize>, Vec<usize>) {
+    let mut d = Dec::new(bytes);
+    let n = hist_pool().len();
+    let len = 3 + d.below(8);
+    let idx: Vec<usize> = (0..len).map(|_| d.below(n)).collect();
+    let inputs: Vec<usize> = (0..len).map(|_| 1 + d.below(2)).collect();
+    (idx, inputs)
+}
+
+/// All on one thread: each result must be what the stateless reference evaluator gives for that expression alone.
+fn check_expression_history(bytes: &[u8]) -> Verdict {
+    let pool = hist_pool();
+    let (idx, inputs) = decode_history(bytes);
+    for (step, (i, inp)) in idx.iter().zip(inputs.iter()).enumerate() {
+        let facts = simple_facts(*inp as i128);
+        let e = &pool[*i];
+        let want = me::eval_plain(e, &facts);
+        let got = catch(|| block_on(e.evaluate(&facts))).map_err(|p| Issue::new("sched:panic", format!("evaluation panicked: {p}")))?;
+        if let Some(dis) = me::compare(&got, &want) {
+            return Err(Issue::new(
+                "sched:history-dependent",
+                format!(
+                    "step {step} of the history {:?}: {} gives {} but on its own {} ({dis:?})",
+                    idx.iter().map(|i| show_expr(&pool[*i])).collect::<Vec<_>>(),
+                    show_expr(e),
+                    me::show_actual(&got),
+                    me::show_model(&want)
+                ),
+            ));
+        }
+    }
+    Ok(())
+}
+
 pub fn run(ctx: &Ctx) {
     ctx.set_rule(
         "Generated: rulesets of call-heavy rules over probes that suspend 0-3 times per call (returning Pending and waking by \
@@ -363,10 +419,28 @@ pub fn run(ctx: &Ctx) {
     ctx.assume("the evaluator itself never yields: suspension points exist only inside user functions, which the harness owns");
     ctx.assume("failure plans are stateless so that a baseline exists that is independent of history");
 
-    super::regressions::run(ctx, "C12", |j| SchedCase::from_json(j).map(|c| check(&c)));
+    super::regressions::run(ctx, "C12", replay);
 
     // histories of abandoned evaluations: k evaluations started, polled to their first suspension and dropped, then a
     // scheduled run; each case on a fresh OS thread so that the case alone is the whole history (replayable as is)
+    let nh = ctx.tier.pick(40_000u64, 600_000u64);
+    ctx.random(
+        "expression-histories",
+        nh,
+        || gen::recipe(40),
+        |bytes, acc| {
+            if let Some(acc) = acc {
+                let (idx, _) = decode_history(bytes);
+                let pool = hist_pool();
+                let repeats = idx.iter().enumerate().any(|(i, x)| idx[..i].contains(x));
+                acc.case("history:expressions", repeats, || format!("{:?}", idx.iter().map(|i| show_expr(&pool[*i])).collect::<Vec<_>>()));
+            }
+            check_expression_history(bytes)
+        },
+        |bytes| json!({"history_bytes": bytes}),
+        "history",
+    );
+
     let specs = core_specs();
     let ks: [u32; 12] = [1, 2, 3, 5, 10, 25, 50, 100, 150, 200, 300, 400];
     let hist: Vec<SchedCase> = specs
@@ -450,5 +524,9 @@ pub fn run(ctx: &Ctx) {
 }
 
 pub fn replay(j: &serde_json::Value) -> Option<Verdict> {
+    if let Some(b) = j.get("history_bytes").and_then(|b| b.as_array()) {
+        let bytes: Vec<u8> = b.iter().filter_map(|x| x.as_u64().map(|x| x as u8)).collect();
+        return Some(check_expression_history(&bytes));
+    }
     SchedCase::from_json(j).map(|c| check(&c))
 }
